@@ -837,7 +837,12 @@ func c11cRun(c c11cCase) (out Outcome) {
 			o.Sig = "client-decoder:" + o.Sig
 		}
 		o.NonTrivial = true
-		o.Labels = append(o.Labels, "scan_with_leading_empty_partials")
+		if c.Scan.Spec.EmptyFirst {
+			o.Labels = append(o.Labels, "scan_with_leading_empty_partials")
+		}
+		if c.Scan.Spec.UnaskedMetrics {
+			o.Labels = append(o.Labels, "scan_with_unasked_metrics")
+		}
 		return o
 	}
 	var o Outcome
@@ -940,7 +945,7 @@ func TestC11_ClientDecoders(t *testing.T) {
 		"rapid: decoding that happens in the CALLER's goroutine. (a) whole client against the simulated cluster: an Increment whose "+
 			"answer carries a counter cell of 0..12 bytes (8 is well-formed) - error, never a panic; (b) the real scanner against the "+
 			"model server of C06 which additionally sends zero-cell partial results ahead of a row's first fragment (structurally valid, "+
-			"inconsistent with the data) - the C06 oracle still holds and nothing panics; (c) a region in use has to be re-established and "+
+			"inconsistent with the data) and/or scan metrics nobody asked for - the C06 oracle still holds and nothing panics; (c) a region in use has to be re-established and "+
 			"hbase:meta serves 1..3 malformed info:regioninfo values (empty, 1..3 bytes, wrong magic, garbage protobuf) before sane ones - "+
 			"no goroutine of the client panics and the request recovers or fails, it does not hang. Non-trivial = every case except the "+
 			"well-formed increment; distinct by case hash")
@@ -968,7 +973,8 @@ func TestC11_ClientDecoders(t *testing.T) {
 			return c
 		}
 		sc := scanCase{Spec: scanSpecGen(t), End: scanEnding{Kind: "exhaust"}}
-		sc.Spec.EmptyFirst = true
+		sc.Spec.EmptyFirst = rapid.Bool().Draw(t, "emptyfirst")
+		sc.Spec.UnaskedMetrics = !sc.Spec.EmptyFirst || rapid.Bool().Draw(t, "metrics")
 		sc.Spec.Twice = false
 		return c11cCase{Kind: "scan", Scan: sc}
 	}, c11cRun)
